@@ -223,3 +223,42 @@ def replay(ctx, path):
             print(l.rstrip()[:1500])
     print(out)
     return 1 if "FAIL mon" in out else 0
+
+
+def conc_probe(ctx, pid, want_checks, case_filter=("add",)):
+    """Used by the checks of properties whose theorems are about the sequential model but whose statement also
+    covers requests served WHILE a block is being processed (C01: answered before the request returns / the block is
+    handled; C02: no response from a stale cache entry): runs the controlled-schedule exploration of C10 on the real
+    tower and reports, for property `pid`,
+      * a monitor failure of one of `want_checks` (not a recorded C10 finding) as a concrete violation (the replay is the
+        schedule), and
+      * a disagreement between the thread programs and the real code (lock trace, state, schedule set) in a case that
+        involves add_appointment as a broken obligation: the sequential theorems lift to the concurrent tower only
+        through the guard lifetimes ConcTower.v records and C10's theorems use."""
+    if not ctx.cargo_build(["conc"]):
+        return
+    known10 = vlib.load_known("C10")
+    s, cc, fails, ok = shard_run(ctx, "quick", "probe")
+    ctx.log("conc probe: " + ", ".join(f"{a}={b}" for a, b in s.items() if a != "mon_hist"))
+    ctx.coverage["concurrent_schedules_probed_on_the_real_tower"] = s.get("runs", 0)
+    seen = set()
+    for f in fails:
+        m = MON_RE.match(f)
+        if m:
+            check, cls, ops, case, detail, word = m.groups()
+            key = key_of(m)
+            if check not in want_checks or vlib.match_known(known10, {"key": key}) is not None:
+                continue
+            kk = json.dumps(key, sort_keys=True)
+            if kk in seen:
+                continue
+            seen.add(kk)
+            ctx.add_violation(f"{pid}: concurrent monitor `{check}` false on the real tower ({cls}): case {case}, schedule {word.strip()}",
+                              {"kind": "conc", "case": case, "word": [int(x) for x in word.split()], "check": check, "class": cls,
+                               "detail": detail[:3000], "replay_with": "./vcheck C10 --replay"},
+                              {"kind": "conc", "check": check, "class": cls})
+        elif f.startswith("FAIL") and any(t in f for t in case_filter):
+            if not any(b.get("kind") == "correspondence" and "thread programs" in b.get("what", "") for b in ctx.broken):
+                ctx.broken.append({"kind": "correspondence", "what": "the thread programs of ConcTower.v and the real tower disagree on a "
+                                   "controlled schedule of a case with add_appointment (guard lifetime / ordering changed?)",
+                                   "first": f[:2000]})
